@@ -5,6 +5,9 @@ import GmQuic.Lemmas.StreamMono
 import GmQuic.Lemmas.StreamDone
 import GmQuic.Lemmas.StreamLiveN
 import GmQuic.Lemmas.StreamLiveV
+import GmQuic.Lemmas.StreamWinC
+import GmQuic.Lemmas.StreamWinD
+import GmQuic.Lemmas.StreamWinE
 /-!
 C01 — stream data is delivered reliably, in order, exactly once.
 
@@ -348,5 +351,200 @@ example :
     let t := (after 20 20 (hops exLate)).run (.shutdown :: settleOps (fun _ => false) (List.range 2) ++ pickOps [(5, 0)] ++
       settleOps (fun _ => true) (List.range' 2 1) ++ [.read 6, .read 6])
     t.eof = true ∧ t.out = [1, 2, 3, 4, 5] ∧ t.snd.st = .dataRcvd ∧ t.rcv.st = .dataRead ∧ t.emitted.length = 3 := by decide
+
+/-! ### liveness with flow control: a window smaller than the stream
+
+`eventually_complete` assumes that the whole stream fits the window the sender already has.  In reality the receiver
+grants more (`Recv::poll_read` emits MAX_STREAM_DATA) as the application reads.  The cooperative ROUND (`wround`):
+*(1) `shutdown`; (2) every frame ever emitted is lost or delivered+acknowledged (`keep`, chosen per round); (3) ANY
+complete sequence of legal non-repeating picks — until the sender is blocked by the window or has nothing left;
+(4) exactly the new frames are delivered and acknowledged; (5) `read cap` — everything available; (6) the last
+MAX_STREAM_DATA frame emitted is delivered to the sender.*  Flow-control hypothesis `Flow s` (Lemmas/StreamWinB):
+the receiver's advertised limit exceeds what was read by at least one byte (`nread < max_stream_data`; `Recv::poll_read`
+re-establishes it on every read: limit := nread + 2_000_000 as soon as nread + 1_000_000 exceeds it), and the sender
+knows that limit or it is the value of the last MAX_STREAM_DATA frame emitted (`Synced`). -/
+
+/-- OUTER TERMINATION MEASURE (window deficit `|written| − maxData`): every round from a `Fair` state with the
+flow-control hypothesis, for EVERY loss pattern and EVERY complete pick sequence, preserves `Fair` and the hypothesis,
+writes nothing, never shrinks the window, and leaves the window covering the whole stream or STRICTLY larger. -/
+theorem window_round_progress (s : Stream) (hf : Fair s) (hw : WinOk s) (hlen : s.snd.written.length < varintMax)
+    (cap : Nat) (hcap : s.snd.written.length < cap) (c : Choice) (hok : RoundOk s c) :
+    Fair (wround cap s c) ∧ WinOk (wround cap s c) ∧ (wround cap s c).snd.written = s.snd.written ∧
+      s.snd.maxData ≤ (wround cap s c).snd.maxData ∧
+      ((wround cap s c).snd.written.length ≤ (wround cap s c).snd.maxData ∨
+        s.snd.maxData < (wround cap s c).snd.maxData) :=
+  wround_spec cap hf hw hlen hcap c hok
+
+/-- LIVENESS WITH FLOW CONTROL (cooperative form, full strength): from EVERY `Fair` state `s0` with the flow-control
+hypothesis (or the stream inside the window: `WinOk`), stream shorter than 2^62 − 1 bytes, for EVERY schedule `cs` of
+rounds (each with its own loss pattern and its own complete pick sequence — `Sched`) that is at least as long as the
+window deficit `|written| − maxData` (or after which the window is seen to cover the stream), the final suffix of
+`eventually_complete` (any loss pattern `keep`, any complete pick sequence `ps`, the new frames delivered and
+acknowledged, two reads) ends with everything read, end-of-stream seen, the sender in `DataRcvd`, `poll_shutdown` and
+`poll_flush` = `Ready(Ok)`, the receiver in `DataRead`.  Lexicographic measure: (window deficit — strictly smaller
+after every round that does not end it, `window_round_progress`; `mu` — every pick inside a round, `pick_phase_terminates`). -/
+theorem eventually_complete_windowed (s0 : Stream) (hf : Fair s0) (hw : WinOk s0)
+    (hlen : s0.snd.written.length < varintMax) (cap : Nat) (hcap : s0.snd.written.length < cap)
+    (cs : List Choice) (hs : Sched cap s0 cs)
+    (hn : s0.snd.written.length - s0.snd.maxData ≤ cs.length ∨
+      s0.snd.written.length ≤ (cs.foldl (wround cap) s0).snd.maxData)
+    (keep : Nat → Bool) (ps : List (Nat × Nat)) :
+    let s1 := cs.foldl (wround cap) s0
+    let s2 := s1.run (.shutdown :: settleOps keep (List.range s1.emitted.length))
+    PickSeq s2 ps →
+    let s3 := s2.run (pickOps ps)
+    s3.snd.somePick = none →
+    let t := s3.run (settleOps (fun _ => true) (List.range' s1.emitted.length (s3.emitted.length - s1.emitted.length)) ++
+                      [.read cap, .read cap])
+    t.eof = true ∧ t.out = s0.snd.written ∧ t.snd.written = s0.snd.written ∧ t.snd.st = .dataRcvd ∧
+      t.snd.pollShutdown.2 = "ready" ∧ t.snd.pollFlush = "ready" ∧ t.rcv.st = .dataRead := by
+  intro s1 s2 hps s3 hidle t
+  obtain ⟨f1, _, w1, _, g1⟩ := sched_spec cap cs hf hw hlen hcap hs
+  have hfit : s1.snd.written.length ≤ s1.snd.maxData := by
+    rcases g1 with g | g
+    · exact g
+    · show (cs.foldl (wround cap) s0).snd.written.length ≤ (cs.foldl (wround cap) s0).snd.maxData
+      rw [w1]
+      rcases hn with h | h
+      · omega
+      · exact h
+  have hc := eventually_complete s1 f1 hfit keep ps cap
+    (by show (cs.foldl (wround cap) s0).snd.written.length < cap; rw [w1]; exact hcap) hps hidle
+  have w1' : s1.snd.written = s0.snd.written := w1
+  rw [w1'] at hc
+  exact hc
+
+/-- The schedule can always be played: from every `Fair` state a schedule of rounds of ANY length exists (in particular
+one as long as the window deficit), so `eventually_complete_windowed` is never vacuous. -/
+theorem windowed_schedule_exists (s0 : Stream) (hf : Fair s0) (cap n : Nat) :
+    ∃ cs : List Choice, cs.length = n ∧ Sched cap s0 cs :=
+  sched_exists cap n hf
+
+/-- non-vacuity: a 10-byte stream through a 4-byte window.  Round 1 can only send `[0, 4)`; the read of these 4 bytes
+makes the receiver advertise 2 000 004, the MAX_STREAM_DATA frame is delivered, and the final suffix sends `[4, 10)` + FIN. -/
+def exWin : Stream := after 4 4 [.write [1, 2, 3, 4, 5, 6, 7, 8, 9, 10]]
+
+example : Fair exWin := fair_history 4 4 (Nat.le_refl _) [.write [1, 2, 3, 4, 5, 6, 7, 8, 9, 10]]
+example : Flow exWin := ⟨by decide, Or.inl (by decide)⟩
+example : exWin.snd.maxData = 4 ∧ exWin.snd.written.length = 10 ∧
+    exWin.snd.written.length < varintMax := by decide
+example : Sched 11 exWin [(fun _ => true, [(0, 4)])] :=
+  ⟨⟨⟨by decide, Or.inl (by decide), trivial⟩, by decide⟩, trivial⟩
+example : (wround 11 exWin (fun _ => true, [(0, 4)])).snd.maxData = 2000004 ∧
+    (wround 11 exWin (fun _ => true, [(0, 4)])).out = [1, 2, 3, 4] ∧
+    (wround 11 exWin (fun _ => true, [(0, 4)])).snd.somePick = some (4, 1) := by decide
+example :
+    let s1 := wround 11 exWin (fun _ => true, [(0, 4)])
+    let s2 := s1.run (.shutdown :: settleOps (fun _ => true) (List.range s1.emitted.length))
+    s2.snd.pickOk 4 6 ∧ (s2.run (pickOps [(4, 6)])).snd.somePick = none ∧
+    let t := (s2.run (pickOps [(4, 6)])).run (settleOps (fun _ => true) (List.range' 1 1) ++ [.read 11, .read 11])
+    t.eof = true ∧ t.out = [1, 2, 3, 4, 5, 6, 7, 8, 9, 10] ∧ t.snd.st = .dataRcvd ∧ t.rcv.st = .dataRead := by decide
+
+/-- The flow-control hypothesis is discharged: `WinOk` holds after EVERY no-abort history with an honest network from
+`init w w` (both ends start from the same positive `initial_max_stream_data`, RFC 9000 §18.2 / C11) — writes, picks,
+deliveries in any order and multiplicity, losses, acknowledgements after deliveries, reads of any size, MAX_STREAM_DATA
+frames delivered in any order, any number of times, or never. -/
+theorem flow_history (w : Nat) (hw : 0 < w) (l : List HOp)
+    (hlen : (after w w (hops l)).snd.written.length < varintMax) : WinOk (after w w (hops l)) :=
+  winOk_of_winv (fair_history w w (Nat.le_refl _) l).reach hlen
+    (winv_run (fair_init w w (Nat.le_refl _)) (winv_init w hw) l)
+
+/-- LIVENESS WITH FLOW CONTROL, every hypothesis discharged: after EVERY no-abort history with an honest network from
+`init w w`, `w > 0` — whatever the size of the stream relative to the window — there is a finite continuation made
+of cooperative operations only (`shutdown`, picks, deliveries, acknowledgements, loss declarations, reads, delivery of
+MAX_STREAM_DATA) after which the reader has read exactly what was written, has seen end-of-stream, and the sender is
+in `DataRcvd`. -/
+theorem completes_after_every_history_windowed (w : Nat) (hw : 0 < w) (l : List HOp)
+    (hlen : (after w w (hops l)).snd.written.length < varintMax) :
+    ∃ ops : List Op, (∀ op ∈ ops, op.coopW = true) ∧
+      ((after w w (hops l)).run ops).eof = true ∧
+      ((after w w (hops l)).run ops).out = (after w w (hops l)).snd.written ∧
+      ((after w w (hops l)).run ops).snd.st = .dataRcvd ∧
+      ((after w w (hops l)).run ops).snd.pollShutdown.2 = "ready" ∧
+      ((after w w (hops l)).run ops).snd.pollFlush = "ready" := by
+  have hf := fair_history w w (Nat.le_refl _) l
+  have hwin := flow_history w hw l hlen
+  generalize after w w (hops l) = s0 at *
+  let cap := s0.snd.written.length + 1
+  obtain ⟨cs, hcl, hsched⟩ := windowed_schedule_exists s0 hf cap (s0.snd.written.length - s0.snd.maxData)
+  obtain ⟨f1, _, _, _, _⟩ := sched_spec cap cs hf hwin hlen (Nat.lt_succ_self _) hsched
+  obtain ⟨o1, e1, c1⟩ := sched_ops cap cs s0
+  obtain ⟨ps, p1, _, p3⟩ := cooperative_suffix_exists _ f1 (fun _ => true)
+  have hc := eventually_complete_windowed s0 hf hwin hlen cap (Nat.lt_succ_self _) cs hsched (Or.inl (by omega))
+    (fun _ => true) ps p1 p3
+  obtain ⟨d1, d2, _, d4, d5, d6, _⟩ := hc
+  generalize cs.foldl (wround cap) s0 = s1 at *
+  subst e1
+  refine ⟨o1 ++ ((.shutdown :: settleOps (fun _ => true) (List.range (s0.run o1).emitted.length)) ++ pickOps ps ++
+    (settleOps (fun _ => true) (List.range' (s0.run o1).emitted.length
+      ((((s0.run o1).run (.shutdown :: settleOps (fun _ => true) (List.range (s0.run o1).emitted.length))).run
+        (pickOps ps)).emitted.length - (s0.run o1).emitted.length)) ++ [.read cap, .read cap])), ?_, ?_⟩
+  · intro op hm
+    rcases List.mem_append.mp hm with e | e
+    · exact c1 op e
+    · apply coopW_of_coop
+      rcases List.mem_append.mp e with e | e
+      · rcases List.mem_append.mp e with e | e
+        · rcases List.mem_cons.mp e with e | e
+          · subst e; rfl
+          · exact settle_coop _ _ op e
+        · exact pickOps_coop ps op e
+      · rcases List.mem_append.mp e with e | e
+        · exact settle_coop _ _ op e
+        · have e' : op = .read cap := by simpa using e
+          subst e'; rfl
+  · simp only [run_append] at d1 d2 d4 d5 d6 ⊢
+    exact ⟨d1, d2, d4, d5, d6⟩
+
+-- non-vacuity: the 10-byte stream behind the 4-byte window is such a history
+example : exWin = after 4 4 (hops [.write [1, 2, 3, 4, 5, 6, 7, 8, 9, 10]]) ∧ (0 : Nat) < 4 ∧
+    exWin.snd.written.length < varintMax := ⟨rfl, by decide, by decide⟩
+
+/-- LIVENESS WITH FLOW CONTROL when the application never shuts the stream down (the other half of "EOF iff shutdown was
+called"): from every `Fair` state in which `shutdown` was not called, with `WinOk`, for EVERY schedule `cs` of rounds
+WITHOUT `shutdown` (`wroundO`, `SchedO`) at least as long as the window deficit, the suffix of `eventually_flushed` ends
+with every written byte read, every byte acknowledged, `poll_flush` = `Ready(Ok)`, and NO end-of-stream reported. -/
+theorem eventually_flushed_windowed (s0 : Stream) (hf : Fair s0)
+    (hopen : s0.snd.shutdown = false ∧ (s0.snd.st = .ready ∨ s0.snd.st = .sending)) (hw : WinOk s0)
+    (hlen : s0.snd.written.length < varintMax) (cap : Nat) (hcap : s0.snd.written.length < cap)
+    (cs : List Choice) (hs : SchedO cap s0 cs)
+    (hn : s0.snd.written.length - s0.snd.maxData ≤ cs.length ∨
+      s0.snd.written.length ≤ (cs.foldl (wroundO cap) s0).snd.maxData)
+    (keep : Nat → Bool) (ps : List (Nat × Nat)) :
+    let s1 := cs.foldl (wroundO cap) s0
+    let s2 := s1.run (settleOps keep (List.range s1.emitted.length))
+    PickSeq s2 ps →
+    let s3 := s2.run (pickOps ps)
+    s3.snd.somePick = none →
+    let t := s3.run (settleOps (fun _ => true) (List.range' s1.emitted.length (s3.emitted.length - s1.emitted.length)) ++
+                      [.read cap])
+    t.out = s0.snd.written ∧ t.snd.written = s0.snd.written ∧ t.snd.pollFlush = "ready" ∧ t.snd.allAcked ∧
+      t.eof = false := by
+  intro s1 s2 hps s3 hidle t
+  have ho : Open s0.snd := ⟨hf.snd.1, hopen.1, hopen.2⟩
+  obtain ⟨f1, o1, w1, g1⟩ := schedO_spec cap cs hf ho hw hlen hcap hs
+  have hfit : s1.snd.written.length ≤ s1.snd.maxData := by
+    rcases g1 with g | g
+    · exact g
+    · show (cs.foldl (wroundO cap) s0).snd.written.length ≤ (cs.foldl (wroundO cap) s0).snd.maxData
+      rw [w1]
+      rcases hn with h | h
+      · omega
+      · exact h
+  have hc := eventually_flushed s1 f1 ⟨o1.2.1, o1.2.2⟩ hfit keep ps cap
+    (by show (cs.foldl (wroundO cap) s0).snd.written.length < cap; rw [w1]; exact hcap) hps hidle
+  have w1' : s1.snd.written = s0.snd.written := w1
+  rw [w1'] at hc
+  exact hc
+
+-- non-vacuity: the 10-byte stream behind the 4-byte window, never shut down
+example : SchedO 11 exWin [(fun _ => true, [(0, 4)])] :=
+  ⟨⟨⟨by decide, Or.inl (by decide), trivial⟩, by decide⟩, trivial⟩
+example :
+    let s1 := wroundO 11 exWin (fun _ => true, [(0, 4)])
+    let s2 := s1.run (settleOps (fun _ => true) (List.range s1.emitted.length))
+    s1.snd.maxData = 2000004 ∧ s2.snd.pickOk 4 6 ∧ (s2.run (pickOps [(4, 6)])).snd.somePick = none ∧
+    let t := (s2.run (pickOps [(4, 6)])).run (settleOps (fun _ => true) (List.range' 1 1) ++ [.read 11])
+    t.out = [1, 2, 3, 4, 5, 6, 7, 8, 9, 10] ∧ t.snd.pollFlush = "ready" ∧ t.eof = false ∧ t.snd.st = .sending := by decide
 
 end GmQuic.Stream
